@@ -21,6 +21,11 @@ func checkC10(c *Check) {
 	c.manifestVersionRule("R1")
 	c.onlyValidatedRecorded("R1")
 
+	// ---- R1 (cont.) what is handed on is the group that was matched: between acceptance and deployment the manifest
+	// group is picked out by name; a pointer to a range variable that outlives its iteration names whatever element the
+	// loop visited last (the module's Go version gives one variable per loop)
+	c.loopVarAddressEscapes("R1", []string{"provider/event", "provider/manifest", "validation", "manifest"})
+
 	// ---- R2 hash covers everything
 	mp := l.Pkg("manifest")
 	root := mp.Types.Scope().Lookup("Manifest")
@@ -427,6 +432,27 @@ func (c *Check) uniqueNamesRule(rule, rel, recv, name string) {
 					}
 				}
 			}
+			// (3) comparison with the name remembered from the previous iteration only
+			for _, a := range factsAt(b) {
+				if a.Op != "eq" || a.Y == nil {
+					continue
+				}
+				for _, pair := range [][2]ssa.Value{{a.X, a.Y}, {a.Y, a.X}} {
+					ph, isPhi := pair[1].(*ssa.Phi)
+					if !isPhi || loopHeaderOf(ph.Block()) == nil {
+						continue
+					}
+					cur := Sym(pair[0])
+					for _, e := range ph.Edges {
+						if es2 := Sym(e); es2 == cur || (strings.Contains(cur, "GetName(") && strings.Contains(es2, "GetName(")) || (strings.HasSuffix(cur, ".Name") && strings.HasSuffix(es2, ".Name")) {
+							if !decided {
+								decided = true
+								c.Ob(rule, fnName(fn)+": the duplicate test compares every pair of names", r.Pos(), false, "a name is only compared with the name of the element before it: repeated names that are not adjacent are accepted")
+							}
+						}
+					}
+				}
+			}
 			if !decided {
 				c.Info(rule, fnName(fn)+": form of the duplicate test not recognised, uniqueness not decided", r.Pos(), short(es))
 			}
@@ -505,4 +531,135 @@ func elemIndexOf(v ssa.Value) *elemIdx {
 		}
 	}
 	return nil
+}
+
+// loopVarAddressEscapes: no variable that is assigned once per iteration of a loop, and declared outside that loop's
+// body (a range / for variable under the per-loop semantics of the module's Go version), has its address kept beyond
+// the iteration (returned, stored, appended, captured). Reads and writes through the variable are fine.
+func (c *Check) loopVarAddressEscapes(rule string, rels []string) {
+	l := c.L
+	nvars := 0
+	for _, rel := range rels {
+		for _, fn := range l.pkgFuncs(rel) {
+			for _, b := range fn.Blocks {
+				for _, in := range b.Instrs {
+					a, ok := in.(*ssa.Alloc)
+					if !ok || a.Referrers() == nil || a.Comment == "" || a.Comment == "complit" || strings.HasPrefix(a.Comment, "new") || strings.HasPrefix(a.Comment, "varargs") || strings.HasPrefix(a.Comment, "slicelit") || strings.HasPrefix(a.Comment, "makeslice") {
+						continue
+					}
+					// assigned inside a loop whose body does not contain the declaration
+					inLoop := false
+					for _, r := range *a.Referrers() {
+						st, isS := r.(*ssa.Store)
+						if !isS || st.Addr != ssa.Value(a) {
+							continue
+						}
+						if h := loopHeaderOf(st.Block()); h != nil && !loopBlocks(h)[a.Block()] {
+							// the stored value is an element of what is ranged over / the loop's own progress
+							inLoop = true
+						}
+					}
+					if !inLoop {
+						continue
+					}
+					nvars++
+					for _, r := range *a.Referrers() {
+						esc := ""
+						switch x := r.(type) {
+						case *ssa.Store:
+							if x.Val == ssa.Value(a) {
+								esc = "stored"
+							}
+						case *ssa.Return:
+							esc = "returned"
+						case *ssa.Phi:
+							esc = "kept in a variable"
+						case *ssa.MakeInterface, *ssa.ChangeType, *ssa.Convert:
+							esc = "converted and handed on"
+						case *ssa.MakeClosure:
+							// only a closure that is started as a goroutine keeps running with the variable while the
+							// loop goes on; one that is called or deferred in place reads the current value
+							if x.Referrers() != nil {
+								for _, cr := range *x.Referrers() {
+									if _, isGo := cr.(*ssa.Go); isGo {
+										esc = "captured by a goroutine"
+									}
+								}
+							}
+						case ssa.CallInstruction:
+							for _, arg := range x.Common().Args {
+								if arg == ssa.Value(a) {
+									esc = "passed to " + calleeFull(x)
+								}
+							}
+							if esc != "" && (strings.Contains(esc, "Unmarshal") || strings.Contains(esc, "Decode") || strings.Contains(esc, "MustUnmarshal")) {
+								esc = "" // filled in place and read back within the iteration
+							}
+							if esc != "" {
+								// only a callee that keeps the pointer (stores it, sends it, hands it to a goroutine) lets it
+								// outlive the iteration; unresolved callees are not judged
+								g := x.Common().StaticCallee()
+								keep := false
+								if g != nil && g.Blocks != nil {
+									for pi, arg := range x.Common().Args {
+										if arg == ssa.Value(a) && pi < len(g.Params) {
+											keep = paramRetained(g, g.Params[pi])
+										}
+									}
+								}
+								if !keep {
+									esc = ""
+								}
+							}
+							if esc != "" && x.Common().StaticCallee() != nil && !x.Common().IsInvoke() {
+								// a method with a pointer receiver / a helper that uses the pointer during the call
+								if g := x.Common().StaticCallee(); g.Signature.Recv() != nil && len(x.Common().Args) > 0 && x.Common().Args[0] == ssa.Value(a) {
+									esc = ""
+								}
+							}
+						}
+						if esc != "" {
+							c.Ob(rule, "address of per-loop variable '"+a.Comment+"' in "+fnName(fn)+" does not outlive its iteration", r.Pos(), false, "&"+a.Comment+" is "+esc+": after the loop it points at the element visited last, not the one that was selected")
+						}
+					}
+				}
+			}
+		}
+	}
+	c.Ob(rule, "no pointer to a per-loop variable is kept beyond its iteration ("+itoa(nvars)+" loop variables with an address examined)", l.Func("provider/event", "ManifestReceived", "ManifestGroup").Pos(), true, "")
+}
+
+// paramRetained: the function keeps its (pointer) parameter beyond the call: stores it, sends it, or binds it into a
+// closure.
+func paramRetained(g *ssa.Function, p *ssa.Parameter) bool {
+	if p.Referrers() == nil {
+		return false
+	}
+	for _, r := range *p.Referrers() {
+		switch x := r.(type) {
+		case *ssa.Store:
+			if x.Val == ssa.Value(p) {
+				if al, isA := x.Addr.(*ssa.Alloc); isA && paramOfAlloc(al) == p {
+					// the parameter's own spill slot: follow the loads of it
+					for _, r2 := range *al.Referrers() {
+						if ld, isLd := r2.(*ssa.UnOp); isLd && ld.Referrers() != nil {
+							for _, r3 := range *ld.Referrers() {
+								if st, isS := r3.(*ssa.Store); isS && st.Val == ssa.Value(ld) {
+									return true
+								}
+								if _, isMC := r3.(*ssa.MakeClosure); isMC {
+									return true
+								}
+							}
+						}
+					}
+					continue
+				}
+				return true
+			}
+		case *ssa.Send, *ssa.MakeClosure:
+			return true
+		}
+	}
+	return false
 }
